@@ -235,6 +235,9 @@ func checkC15(c *Ctx) {
 	}
 
 	c.c15RingWalks(hubFns)
+	c.c15ReplayRegister(hubFns, fHist, fList)
+	c.c15Broadcast(hubFns, fList)
+	c.c15QueueCapacity()
 
 	// ---- D2..D4 over listener implementers
 	impls := c.listenerImpls()
@@ -341,6 +344,296 @@ func checkC15(c *Ctx) {
 	} else {
 		r.Bad("C15/ISOLATE", "hub-broadcast", p.Pos(hubNew.Pos()), "the hub calls Receive/Delete of each listener inline in its broadcast loop; since an implementer can block or panic there (see NOBLOCK/CLOSE-RACE/CLOSED-TEST), one listener can stall the hub or make the others miss the event")
 	}
+}
+
+// c15ReplayRegister: a joining listener gets the history and becomes a live listener in ONE
+// hub operation. The operation queue has several producers; if replay and registration are
+// two operations, an event dispatched by another goroutine can be queued between them — it
+// enters the history after the replay ran and is broadcast before the listener is
+// registered, so the listener never sees it.
+func (c *Ctx) c15ReplayRegister(hubFns []*ssa.Function, fHist, fList *types.Var) {
+	r, p := c.R, c.P
+	r.Rule("C15/ACTOR/replay-register", "every hub operation that inserts into Hub.listeners replays Hub.history (ring.Do) earlier in the same operation, and every operation that replays the history to a listener registers it afterwards: replay and registration are one queued operation (helpers are looked through)")
+	inHub := map[*ssa.Function]bool{}
+	for _, fn := range hubFns {
+		inHub[fn] = true
+	}
+	// roots: hub functions not statically called by another hub function (queued operations
+	// and API methods); helpers are attributed to the roots that call them
+	called := map[*ssa.Function]bool{}
+	for _, fn := range hubFns {
+		eng.EachInstr(fn, func(in ssa.Instruction) {
+			if call, ok := in.(*ssa.Call); ok {
+				if g := eng.StaticCallee(call.Common()); g != nil && inHub[g] {
+					called[g] = true
+				}
+			}
+		})
+	}
+	var find func(fn *ssa.Function, direct func(ssa.Instruction) bool, depth int) ssa.Instruction
+	find = func(fn *ssa.Function, direct func(ssa.Instruction) bool, depth int) ssa.Instruction {
+		if depth > 4 {
+			return nil
+		}
+		var at ssa.Instruction
+		eng.EachInstr(fn, func(in ssa.Instruction) {
+			if direct(in) {
+				at = in
+				return
+			}
+			if call, ok := in.(*ssa.Call); ok {
+				if g := eng.StaticCallee(call.Common()); g != nil && inHub[g] && g != fn && find(g, direct, depth+1) != nil {
+					at = in
+				}
+			}
+		})
+		return at
+	}
+	isReplay := func(in ssa.Instruction) bool {
+		call, ok := in.(*ssa.Call)
+		return ok && eng.CalleeName(call.Common()) == "(*container/ring.Ring).Do" && eng.SameField(eng.LoadedField(call.Call.Args[0]), fHist)
+	}
+	isInsert := func(in ssa.Instruction) bool {
+		mu, ok := in.(*ssa.MapUpdate)
+		return ok && eng.SameField(eng.LoadedField(mu.Map), fList)
+	}
+	n := 0
+	for _, fn := range hubFns {
+		if called[fn] {
+			continue
+		}
+		rp, ins := find(fn, isReplay, 0), find(fn, isInsert, 0)
+		if rp == nil && ins == nil {
+			continue
+		}
+		n++
+		cons := shortFn(fn)
+		switch {
+		case rp != nil && ins != nil && eng.Dominates(rp, ins):
+			r.Ok("C15/ACTOR/replay-register", cons, p.InstrPos(ins), "history replay at %s and registration in one operation", p.InstrPos(rp))
+		case rp != nil && ins != nil:
+			r.Bad("C15/ACTOR/replay-register", cons, p.InstrPos(ins), "the listener is registered before (or independently of) the history replay in the same operation: it can receive a live event before older history entries")
+		case ins != nil:
+			r.Bad("C15/ACTOR/replay-register", cons, p.InstrPos(ins), "a listener is registered in an operation that does not replay the history: if the replay is a separate queued operation, events dispatched by other goroutines between the two are never delivered to this listener")
+		default:
+			r.Bad("C15/ACTOR/replay-register", cons, p.InstrPos(rp), "the history is replayed to a listener in an operation that does not register it: events queued between this operation and the registration are never delivered to the listener")
+		}
+	}
+	r.Floor("C15/ACTOR/replay-register", "hub operations that replay history or register listeners", n, 1)
+}
+
+// c15Broadcast: an operation that relays an event to the listeners does so on every path:
+// the relay must not depend on the history being kept (ring.New(0) is nil) or on anything
+// else.
+func (c *Ctx) c15Broadcast(hubFns []*ssa.Function, fList *types.Var) {
+	r, p := c.R, c.P
+	r.Rule("C15/ACTOR/broadcast-unconditional", "in every hub operation that relays to the registered listeners (a loop over Hub.listeners calling a Listener method, directly or in a helper), every path from entry to return passes that loop")
+	inHub := map[*ssa.Function]bool{}
+	for _, fn := range hubFns {
+		inHub[fn] = true
+	}
+	called := map[*ssa.Function]bool{}
+	for _, fn := range hubFns {
+		eng.EachInstr(fn, func(in ssa.Instruction) {
+			if call, ok := in.(*ssa.Call); ok {
+				if g := eng.StaticCallee(call.Common()); g != nil && inHub[g] {
+					called[g] = true
+				}
+			}
+		})
+	}
+	// relayers: functions that range over Hub.listeners and invoke something per listener
+	// (a Listener method or a callback) on every path
+	isRange := func(in ssa.Instruction) bool {
+		x, ok := in.(*ssa.Range)
+		return ok && eng.SameField(eng.LoadedField(x.X), fList)
+	}
+	always := map[*ssa.Function]bool{}
+	relayPoint := func(in ssa.Instruction) bool {
+		if isRange(in) {
+			return true
+		}
+		if call, ok := in.(*ssa.Call); ok {
+			if g := eng.StaticCallee(call.Common()); g != nil && always[g] {
+				return true
+			}
+		}
+		return false
+	}
+	mentions := func(fn *ssa.Function) ssa.Instruction {
+		var at ssa.Instruction
+		eng.EachInstr(fn, func(in ssa.Instruction) {
+			if relayPoint(in) {
+				at = in
+			}
+		})
+		return at
+	}
+	for changed := true; changed; {
+		changed = false
+		for _, fn := range hubFns {
+			if always[fn] || mentions(fn) == nil {
+				continue
+			}
+			if ret := (&eng.Search{Target: eng.IsReturnOf(fn), Avoid: relayPoint}).FromEntry(fn); ret == nil || eng.IsRecoverBlock(ret.Block()) {
+				always[fn] = true
+				changed = true
+			}
+		}
+	}
+	n := 0
+	for _, fn := range hubFns {
+		if called[fn] {
+			continue
+		}
+		at := mentions(fn)
+		if at == nil {
+			// a root that reaches a relayer only conditionally through a helper that is not
+			// itself an always-relayer
+			eng.EachInstr(fn, func(in ssa.Instruction) {
+				if call, ok := in.(*ssa.Call); ok {
+					if g := eng.StaticCallee(call.Common()); g != nil && inHub[g] && mentions(g) != nil {
+						at = in
+					}
+				}
+			})
+			if at == nil {
+				continue
+			}
+		}
+		n++
+		cons := shortFn(fn)
+		if always[fn] {
+			r.Ok("C15/ACTOR/broadcast-unconditional", cons, p.InstrPos(at), "every path relays to the listeners")
+		} else {
+			ret := (&eng.Search{Target: eng.IsReturnOf(fn), Avoid: relayPoint}).FromEntry(fn)
+			where := p.InstrPos(at)
+			if ret != nil {
+				where = p.InstrPos(ret)
+			}
+			r.Bad("C15/ACTOR/broadcast-unconditional", cons, where, "the operation can return without relaying the event to the listeners (a path from entry to a return avoids the loop over Hub.listeners reached at %s): with such a state or configuration (e.g. history length 0, where the ring is nil) monitors never see the event", p.InstrPos(at))
+		}
+	}
+	r.Floor("C15/ACTOR/broadcast-unconditional", "relaying hub operations", n, 1)
+}
+
+// c15QueueCapacity: the history is replayed to a joining listener inside one hub operation,
+// i.e. before the listener's consumer can have drained anything; with a non-blocking enqueue
+// the queue must therefore be able to hold the whole history.
+func (c *Ctx) c15QueueCapacity() {
+	r, p := c.R, c.P
+	r.Rule("C15/REPLAY/queue-capacity", "the event queue of every msghub.Listener implementer is created with a capacity of (configured history length) + a positive constant")
+	fHist := p.Field("pkg/config", "Web", "MonitorHistory")
+	if fHist == nil {
+		return
+	}
+	n := 0
+	for _, T := range c.listenerImpls() {
+		st, ok := T.Underlying().(*types.Struct)
+		if !ok {
+			continue
+		}
+		pkgRel := strings.TrimPrefix(T.Obj().Pkg().Path(), eng.Mod+"/")
+		for i := 0; i < st.NumFields(); i++ {
+			f := st.Field(i)
+			ch, isChan := f.Type().Underlying().(*types.Chan)
+			if !isChan {
+				continue
+			}
+			if s, ok := ch.Elem().Underlying().(*types.Struct); ok && s.NumFields() == 0 {
+				continue // a signal channel (chan struct{}), not an event queue
+			}
+			for _, s := range eng.StoresToField(pkgFuncs(p, pkgRel), f) {
+				mk, ok := s.Store.Val.(*ssa.MakeChan)
+				if !ok {
+					continue
+				}
+				n++
+				cons := eng.ShortType(T) + "." + f.Name()
+				if derivesFromHistoryLen(p, mk.Size, fHist, 0) {
+					r.Ok("C15/REPLAY/queue-capacity", cons, p.InstrPos(mk), "capacity = history length + constant")
+				} else {
+					r.Bad("C15/REPLAY/queue-capacity", cons, p.InstrPos(mk), "the queue capacity does not grow with config.Web.MonitorHistory: with a longer history the replay at join overflows the queue before the consumer runs, and the joining monitor is dropped (or, with a blocking enqueue, stalls the hub)")
+				}
+			}
+		}
+	}
+	r.Floor("C15/REPLAY/queue-capacity", "event queues of Listener implementers", n, 1)
+}
+
+// derivesFromHistoryLen: v = h + k (k > 0 constant) where h is a load of the history-length
+// configuration field, possibly passed down as a parameter and clamped at zero.
+func derivesFromHistoryLen(p *eng.Prog, v ssa.Value, fHist *types.Var, depth int) bool {
+	if depth > 6 {
+		return false
+	}
+	v = eng.StripConv(v)
+	switch x := v.(type) {
+	case *ssa.BinOp:
+		if x.Op == token.ADD {
+			if k, isC := eng.ConstInt(x.Y); isC && k > 0 {
+				return isHistoryLen(p, x.X, fHist, depth+1)
+			}
+			if k, isC := eng.ConstInt(x.X); isC && k > 0 {
+				return isHistoryLen(p, x.Y, fHist, depth+1)
+			}
+		}
+	}
+	return false
+}
+
+func isHistoryLen(p *eng.Prog, v ssa.Value, fHist *types.Var, depth int) bool {
+	if depth > 6 {
+		return false
+	}
+	v = eng.StripConv(v)
+	if eng.SameField(eng.LoadedField(v), fHist) {
+		return true
+	}
+	switch x := v.(type) {
+	case *ssa.Phi:
+		// clamp: phi(h, 0)
+		some := false
+		for _, e := range x.Edges {
+			if k, isC := eng.ConstInt(e); isC && k >= 0 {
+				continue
+			}
+			if !isHistoryLen(p, e, fHist, depth+1) {
+				return false
+			}
+			some = true
+		}
+		return some
+	case *ssa.Parameter:
+		sites := p.StaticCallSites(x.Parent())
+		i := eng.ParamIndex(x)
+		if len(sites) == 0 || i < 0 {
+			return false
+		}
+		for _, cs := range sites {
+			if p.IsTestSupport(cs.Instr.Parent()) {
+				continue
+			}
+			if i >= len(cs.Args) || !isHistoryLen(p, cs.Args[i], fHist, depth+1) {
+				return false
+			}
+		}
+		return true
+	case *ssa.UnOp:
+		// field of a struct copy (ctx.WebConfig.MonitorHistory): FieldAddr chain handled by LoadedField
+		if ad := eng.LoadAddr(v); ad != nil {
+			if cell := eng.CellOf(ad); cell != nil && !eng.CellEscapes(cell) {
+				sts := eng.CellStores(cell)
+				for _, st := range sts {
+					if !isHistoryLen(p, st.Val, fHist, depth+1) {
+						return false
+					}
+				}
+				return len(sts) > 0
+			}
+		}
+	}
+	return false
 }
 
 // c15RingWalks: a hand-written walk over the history ring that ends when the cursor is back
